@@ -90,6 +90,7 @@ fn run_one<C: GenericConfig<D, F = F>>(
     let mut out = vec![];
     let id = s["id"].clone();
     let skip = |why: &str| vec![json!({"id": id, "skipped": why})];
+    let _ = &skip;
     let it = match prog::interp(prog, inputs, GOLDILOCKS, 64) {
         Ok(it) => it,
         Err(_) => return skip("unsat base assignment"),
@@ -113,6 +114,13 @@ fn run_one<C: GenericConfig<D, F = F>>(
     };
     let common = &data.common;
     let prover = &data.prover_only;
+    // the selector grouping of this circuit, validated by TLC against spec/Selectors.tla
+    out.push(json!({"id": id, "selectors": {
+        "degrees": common.gates.iter().map(|g| g.0.degree()).collect::<Vec<_>>(),
+        "max_degree": common.quotient_degree_factor + 1,
+        "groups": plonky2::verif_exports::selector_groups(&common.selectors_info).iter().map(|r| vec![r.start, r.end]).collect::<Vec<_>>(),
+        "selector_indices": selector_indices(&common.selectors_info).to_vec(),
+    }}));
     // FRI-side admissibility (spec/Configs.tla FriAdmissible) for the degree of this circuit
     if cfg.fri_admissible(common.degree_bits()).is_err() {
         return skip("inadmissible FRI schedule for this degree");
